@@ -217,6 +217,18 @@ func (r *runner) check(o *Obs) []Violation {
 			}
 		}
 	}
+	// every process of the closure ran its tasks (used where the pairing of items is not a function of the graph)
+	if r.wants("c16-closure-ran") && o.Outcome == "" && completed {
+		ranProcs := map[string]bool{}
+		for k := range started {
+			ranProcs[procOfKey(k)] = true
+		}
+		for _, ps := range r.spec.Procs {
+			if (ps.Kind == "func" || ps.Kind == "cmd") && r.ref.Ran[ps.Name] && !ranProcs[ps.Name] {
+				add("C16", "runto-missing-process", "no task of process "+ps.Name+" executed although it is upstream of the targets "+strings.Join(r.spec.RunTo, ","))
+			}
+		}
+	}
 	// ---------------- C08: emission order
 	if r.wants("c08") && o.Outcome == "" {
 		got := map[string][]string{}
